@@ -176,6 +176,10 @@ def check(col: Collector):
                why="the generated text looks every operand (and the called function) up afresh on each call; the manager's tasks must "
                    "evaluate them afresh too (nothing resolved once and remembered)")
     with col.rule():
+        shared(col, "C13.R7", [c01._task_bodies], select=lambda o: o.construct.startswith("ExprTask.run#"),
+               why="the generated line `target = expression` rebinds the target to the freshly evaluated value, whatever it held before: "
+                   "run() must write exactly that value through the target's _set_value on every run (no in-place reuse, no skip)")
+    with col.rule():
         shared(col, "C13.R5", [c01._set_value_protocol],
                select=lambda o: construct_tag(o) in ("write-on-every-path", "propagate-after-write", "trigger-set", "written-value"),
                why="the generated function writes each argument and runs the tasks unconditionally; set_value must do the same")
